@@ -403,6 +403,14 @@ func runC03(c *Ctx) {
 						qs = append(qs, c03Build(r, listener, "pipe", "ok", "", seq))
 					}
 				}
+				if phase == 0 && (listener == "tcp" || listener == "gnet" || listener == "tls" || listener == "quic") && rep == 0 {
+					// upstream replies just below 64 KiB to an EDNS client: with the proxy's own OPT record
+					// the response no longer fits a 16-bit length prefix and has to be truncated
+					for _, n := range []int{65524, 65527, 65531, 65535} {
+						seq++
+						qs = append(qs, c03Build(r, listener, "pipe", fmt.Sprintf("ok-exact%d", n), "opt", seq))
+					}
+				}
 				if listener == "quic" {
 					for qi, q := range qs {
 						q.LateFin = qi%2 == 1
